@@ -1,32 +1,42 @@
 ------------------------------ MODULE HttpConn ------------------------------
 (***************************************************************************)
-(* C09 - the connection part.  Every instance owns its own HTTP client     *)
-(* (guns/http: NewBaseGun builds one transport per gun, the engine builds  *)
-(* one gun per instance), shoots sequentially, and the target keeps        *)
-(* connections open.  The machine is the server's view (net/http           *)
-(* ConnState: new, active, idle, closed) driven by the instances:          *)
+(* C09 - the connection part.  By default every instance owns its own HTTP *)
+(* client (guns/http: NewBaseGun builds one transport per gun, the engine  *)
+(* builds one gun per instance); with `shared-client: {enabled, client-    *)
+(* number: k}` WarmUp builds k clients and Bind hands them to the          *)
+(* instances round-robin (core/clientpool Next).  Instances shoot          *)
+(* sequentially and the target keeps connections open.  The machine is the *)
+(* server's view (net/http ConnState: new, active, idle, closed) driven by *)
+(* the instances through their clients:                                    *)
 (*                                                                         *)
-(*   Dial(i)     instance i has a request to send and no pooled connection *)
-(*   Send(i)     the request goes out on i's connection   (server: active) *)
+(*   Dial(i)     instance i has a request to send and its client has no    *)
+(*               idle connection; with the connect gun the dial includes   *)
+(*               the CONNECT exchange with the proxy: one tunnel per       *)
+(*               connection (tun)                                          *)
+(*   Send(i)     the request goes out on an idle connection of i's client  *)
 (*   Respond(i)  the exchange is complete: with keep-alives the connection *)
-(*               returns to i's pool (server: idle), with                  *)
+(*               returns to the client's pool (server: idle), with         *)
 (*               disable-keep-alives it is closed (server: closed)         *)
-(*                                                                         *)
-(* Property: with keep-alives an instance uses one connection for all its  *)
-(* requests, so the target sees at most as many connections as there are   *)
-(* instances; without, exactly one connection per request.                 *)
-(*                                                                         *)
 (*   Fail(i)     the exchange fails (e.g. the response headers do not      *)
 (*               arrive within response-header-timeout): the client gives  *)
-(*               the connection up; its next request needs a new one       *)
+(*               the connection up; the next request needs a new one       *)
 (*   Gap(i)      the instance idles between two shots, for less than the   *)
-(*               configured idle-conn-timeout: nothing happens to its      *)
+(*               configured idle-conn-timeout: nothing happens to the      *)
 (*               pooled connection                                         *)
+(*                                                                         *)
+(* Property: with keep-alives a client that carries one request at a time  *)
+(* (a per-instance client always does; a shared client does when the       *)
+(* instances take turns, Serial) keeps ONE connection, so the target sees  *)
+(* at most as many connections as there are clients - instances by         *)
+(* default, client-number with shared-client; a connection is never used   *)
+(* by two clients; without keep-alives exactly one connection per request; *)
+(* every connection of a connect gun is a tunnel opened by its own CONNECT.*)
 (*                                                                         *)
 (* Negative controls: Reuse = FALSE, a client that silently drops its      *)
 (* connection after every exchange although keep-alives are on;            *)
 (* IdleDrop = TRUE, a client that drops its pooled connection during an    *)
-(* idle gap shorter than idle-conn-timeout.                                *)
+(* idle gap shorter than idle-conn-timeout; ClientOf <- OwnClient with     *)
+(* NClients < instances, "one client per instance although shared".        *)
 (***************************************************************************)
 EXTENDS Naturals, FiniteSets
 
@@ -35,78 +45,91 @@ CONSTANTS Inst,      \* instance ids
           KAModes,   \* subset of BOOLEAN: keep-alive settings explored
           Reuse,     \* TRUE: the client pools its connection (the design)
           IdleDrop,  \* FALSE: an idle gap below idle-conn-timeout leaves the pooled connection alone (the design)
-          MaxFail    \* failed exchanges per instance explored
+          MaxFail,   \* failed exchanges per client explored
+          ClientOf,  \* instance -> the client it shoots with (identity: per-instance clients)
+          NClients,  \* number of clients the configuration asks for (instances, or client-number)
+          Serial,    \* TRUE: the instances take turns (at most one exchange in flight)
+          ConnectGun \* TRUE: connect gun, every dial ends with a CONNECT to the proxy target
 
-VARIABLES ninst,     \* number of instances of this run
+VARIABLES ninst,     \* number of clients configured for this run (per-instance clients: the instances)
           ka,        \* keep-alives enabled for this run
           cs,        \* connection -> "new" | "active" | "idle" | "closed"   (connections are 1, 2, ...)
-          own,       \* connection -> instance that sent on it (NoInst before the first request)
+          own,       \* connection -> client that sent on it (NoInst before the first request)
           nreq,      \* connection -> number of requests received on it
-          pool,      \* instance -> its pooled connection, 0 if none
+          pool,      \* client -> its idle connections
           busy,      \* instance -> connection with an exchange in flight, 0 if none
           sent,      \* instance -> requests sent so far
-          fails      \* instance -> exchanges that failed so far
-vars == <<ninst, ka, cs, own, nreq, pool, busy, sent, fails>>
+          fails,     \* client -> exchanges that failed so far
+          tun        \* connection -> the CONNECT that opened it (connect gun)
+vars == <<ninst, ka, cs, own, nreq, pool, busy, sent, fails, tun>>
 
 NoInst == "-"
 Conns == DOMAIN cs
+Clients == {ClientOf[i] : i \in Inst}
+GoodConnect == [uri |-> "GUNTARGET", host |-> "GUNTARGET"]
 
-Init == /\ ka \in KAModes /\ ninst = Cardinality(Inst)
-        /\ cs = <<>> /\ own = <<>> /\ nreq = <<>>
-        /\ pool = [i \in Inst |-> 0] /\ busy = [i \in Inst |-> 0] /\ sent = [i \in Inst |-> 0]
-        /\ fails = [i \in Inst |-> 0]
+Init == /\ ka \in KAModes /\ ninst = NClients
+        /\ cs = <<>> /\ own = <<>> /\ nreq = <<>> /\ tun = <<>>
+        /\ pool = [k \in Clients |-> {}] /\ busy = [i \in Inst |-> 0] /\ sent = [i \in Inst |-> 0]
+        /\ fails = [k \in Clients |-> 0]
 
 Extend(f, c, v) == [x \in DOMAIN f \cup {c} |-> IF x = c THEN v ELSE f[x]]
 
-\* ---- effects (shared with the trace specification, which binds i and c from the log) ----
+\* ---- effects (shared with the trace specification, which binds client and connection from the log) ----
 DialEff(c) == /\ c \notin Conns
               /\ cs' = Extend(cs, c, "new") /\ own' = Extend(own, c, NoInst) /\ nreq' = Extend(nreq, c, 0)
 
 ActiveEff(c) == c \in Conns /\ cs' = [cs EXCEPT ![c] = "active"]
 
-FailEff(i) == fails' = [fails EXCEPT ![i] = @ + 1]
+\* k: the client of the instance that shot the request
+FailEff(k) == fails' = [fails EXCEPT ![k] = @ + 1]
 
-ReqEff(i, c) == /\ c \in Conns
-                /\ own' = [own EXCEPT ![c] = IF @ = NoInst THEN i ELSE IF @ = i THEN i ELSE "shared"]
+ReqEff(k, c) == /\ c \in Conns
+                /\ own' = [own EXCEPT ![c] = IF @ = NoInst THEN k ELSE IF @ = k THEN k ELSE "shared"]
                 /\ nreq' = [nreq EXCEPT ![c] = @ + 1]
 
 IdleEff(c)   == c \in Conns /\ cs' = [cs EXCEPT ![c] = "idle"]
 ClosedEff(c) == c \in Conns /\ cs' = [cs EXCEPT ![c] = "closed"]
+TunnelEff(c, line) == tun' = Extend(tun, c, line)
 
 \* ---- the design: who does what when ----
-Dial(i) == /\ busy[i] = 0 /\ pool[i] = 0 /\ sent[i] < MaxReq
+Quiet == \A j \in Inst : busy[j] = 0
+
+Dial(i) == /\ busy[i] = 0 /\ pool[ClientOf[i]] = {} /\ sent[i] < MaxReq
+           /\ Serial => Quiet
            /\ LET c == Cardinality(Conns) + 1
-              IN  DialEff(c) /\ pool' = [pool EXCEPT ![i] = c]
+              IN  /\ DialEff(c) /\ pool' = [pool EXCEPT ![ClientOf[i]] = {c}]
+                  /\ IF ConnectGun THEN TunnelEff(c, GoodConnect) ELSE tun' = tun
            /\ UNCHANGED <<ninst, ka, busy, sent, fails>>
 
-Send(i) == /\ busy[i] = 0 /\ pool[i] # 0 /\ sent[i] < MaxReq
-           /\ LET c == pool[i]
-              IN  /\ cs' = [cs EXCEPT ![c] = "active"]
-                  /\ own' = [own EXCEPT ![c] = IF @ = NoInst THEN i ELSE IF @ = i THEN i ELSE "shared"]
-                  /\ nreq' = [nreq EXCEPT ![c] = @ + 1]
+Send(i) == /\ busy[i] = 0 /\ pool[ClientOf[i]] # {} /\ sent[i] < MaxReq
+           /\ Serial => Quiet
+           /\ \E c \in pool[ClientOf[i]] :
+                  /\ cs' = [cs EXCEPT ![c] = "active"]
+                  /\ ReqEff(ClientOf[i], c)
                   /\ busy' = [busy EXCEPT ![i] = c]
-           /\ pool' = [pool EXCEPT ![i] = 0]
+                  /\ pool' = [pool EXCEPT ![ClientOf[i]] = @ \ {c}]
            /\ sent' = [sent EXCEPT ![i] = @ + 1]
-           /\ UNCHANGED <<ninst, ka, fails>>
+           /\ UNCHANGED <<ninst, ka, fails, tun>>
 
 Respond(i) == /\ busy[i] # 0
               /\ LET c == busy[i]
                  IN  IF ka /\ Reuse
-                     THEN IdleEff(c) /\ pool' = [pool EXCEPT ![i] = c]
+                     THEN IdleEff(c) /\ pool' = [pool EXCEPT ![ClientOf[i]] = @ \cup {c}]
                      ELSE IF ka THEN IdleEff(c) /\ UNCHANGED pool      \* dropped by the client, still open at the target
                      ELSE ClosedEff(c) /\ UNCHANGED pool
               /\ busy' = [busy EXCEPT ![i] = 0]
-              /\ UNCHANGED <<ninst, ka, own, nreq, sent, fails>>
+              /\ UNCHANGED <<ninst, ka, own, nreq, sent, fails, tun>>
 
-Fail(i) == /\ busy[i] # 0 /\ fails[i] < MaxFail
-           /\ ClosedEff(busy[i]) /\ FailEff(i)
+Fail(i) == /\ busy[i] # 0 /\ fails[ClientOf[i]] < MaxFail
+           /\ ClosedEff(busy[i]) /\ FailEff(ClientOf[i])
            /\ busy' = [busy EXCEPT ![i] = 0]
-           /\ UNCHANGED <<ninst, ka, own, nreq, pool, sent>>
+           /\ UNCHANGED <<ninst, ka, own, nreq, pool, sent, tun>>
 
-Gap(i) == /\ busy[i] = 0 /\ pool[i] # 0
-          /\ IF IdleDrop THEN ClosedEff(pool[i]) /\ pool' = [pool EXCEPT ![i] = 0]
+Gap(i) == /\ busy[i] = 0 /\ pool[ClientOf[i]] # {}
+          /\ IF IdleDrop THEN \E c \in pool[ClientOf[i]] : ClosedEff(c) /\ pool' = [pool EXCEPT ![ClientOf[i]] = @ \ {c}]
                          ELSE UNCHANGED <<cs, pool>>
-          /\ UNCHANGED <<ninst, ka, own, nreq, busy, sent, fails>>
+          /\ UNCHANGED <<ninst, ka, own, nreq, busy, sent, fails, tun>>
 
 Next == \E i \in Inst : Dial(i) \/ Send(i) \/ Respond(i) \/ Fail(i) \/ Gap(i)
 Spec == Init /\ [][Next]_vars
@@ -117,15 +140,18 @@ TypeOK == /\ ka \in BOOLEAN
 
 RECURSIVE SumOver(_, _)
 SumOver(f, S) == IF S = {} THEN 0 ELSE LET x == CHOOSE y \in S : TRUE IN f[x] + SumOver(f, S \ {x})
-ConnsOf(i) == {c \in Conns : own[c] = i}
+ConnsOf(k) == {c \in Conns : own[c] = k}
 
-\* keep-alive: all requests of an instance travel on one connection - whatever the idle gaps below
-\* idle-conn-timeout - except that a failed exchange costs the instance its connection ...
-OneConnPerInstance == ka => \A i \in DOMAIN fails : Cardinality(ConnsOf(i)) <= 1 + fails[i]
-\* ... so a target that keeps connections open sees no more connections than instances (+ failed exchanges)
+\* keep-alive: all requests of a client that carries one request at a time travel on one connection - whatever
+\* the idle gaps below idle-conn-timeout - except that a failed exchange costs the connection ...
+OneConnPerInstance == ka => \A k \in DOMAIN fails : Cardinality(ConnsOf(k)) <= 1 + fails[k]
+\* ... so a target that keeps connections open sees no more connections than clients (+ failed exchanges):
+\* instances by default, client-number with shared-client
 ConnsBounded == ka => Cardinality(Conns) <= ninst + SumOver(fails, DOMAIN fails)
-\* per-instance clients: a connection is never used by two instances
+\* a connection is never used by two clients
 NotShared == \A c \in Conns : own[c] # "shared"
 \* disable-keep-alives: one connection per request
 OneConnPerRequest == ~ka => \A c \in Conns : nreq[c] <= 1
+\* connect gun: every connection is a tunnel opened by its own CONNECT naming the gun's target
+Tunnelled == ConnectGun => \A c \in Conns : c \in DOMAIN tun /\ tun[c] = GoodConnect
 =============================================================================
